@@ -61,8 +61,62 @@ func (a *c34Avail) direct(repo *repository.Repository, pack restic.ID, e a16Entr
 	return a16BlobReadable(repo, raw, e)
 }
 
-// c34Corrupt damages one pack; returns a label.
-func c34Corrupt(h *H, be *mem.MemoryBackend, p a16PackInfo) string {
+// c34TreeKeys gives every tree blob reachable from a snapshot a run-independent key: position of
+// the first snapshot (creation order) that reaches it and its depth / child position below the
+// root. Tree blob IDs themselves differ from run to run (ctime, inode, temp dir names).
+func c34TreeKeys(repo *repository.Repository) map[restic.ID]string {
+	ctx := context.Background()
+	keys := map[restic.ID]string{}
+	var walk func(id restic.ID, key string)
+	walk = func(id restic.ID, key string) {
+		if _, ok := keys[id]; ok {
+			return
+		}
+		keys[id] = key
+		it, err := data.LoadTree(ctx, repo, id)
+		if err != nil {
+			return
+		}
+		i := 0
+		for item := range it {
+			if item.Error != nil {
+				return
+			}
+			if item.Node.Type == data.NodeTypeDir && item.Node.Subtree != nil {
+				walk(*item.Node.Subtree, fmt.Sprintf("%s/%02d", key, i))
+			}
+			i++
+		}
+	}
+	for i, sn := range a16Snapshots(repo) {
+		if sn.Tree != nil {
+			walk(*sn.Tree, fmt.Sprintf("%02d", i))
+		}
+	}
+	return keys
+}
+
+// c34Canon orders the entries of a pack independently of their offsets (blob order inside a pack
+// is decided by restic's concurrent savers): data blobs by ID (content is generated from the
+// seed), tree blobs by their tree key.
+func c34Canon(p a16PackInfo, treeKeys map[restic.ID]string) []a16Entry {
+	l := append([]a16Entry(nil), p.Entries...)
+	key := func(e a16Entry) string {
+		if e.Typ == 1 {
+			if k, ok := treeKeys[e.ID]; ok {
+				return "t" + k
+			}
+			return "u" + e.ID.String()
+		}
+		return "d" + e.ID.String()
+	}
+	sort.SliceStable(l, func(i, j int) bool { return key(l[i]) < key(l[j]) })
+	return l
+}
+
+// c34Corrupt damages one pack; returns a label. canon = the pack's entries in canonical order
+// (used for every "which blob" choice).
+func c34Corrupt(h *H, be *mem.MemoryBackend, p a16PackInfo, canon []a16Entry) string {
 	name := p.ID.String()
 	raw := a16Raw(be, backend.PackFile, name)
 	n := len(raw)
@@ -77,10 +131,10 @@ func c34Corrupt(h *H, be *mem.MemoryBackend, p a16PackInfo) string {
 		a16Replace(be, backend.PackFile, name, raw)
 	}
 	pickBlob := func() (a16Entry, bool) {
-		if len(p.Entries) == 0 {
+		if len(canon) == 0 {
 			return a16Entry{}, false
 		}
-		return p.Entries[h.Intn(len(p.Entries))], true
+		return canon[h.Intn(len(canon))], true
 	}
 	switch h.Intn(10) {
 	case 0, 1, 2: // bit flip inside one blob
@@ -121,11 +175,11 @@ func c34Corrupt(h *H, be *mem.MemoryBackend, p a16PackInfo) string {
 		a16Remove(be, backend.PackFile, name)
 		return "pack-deleted"
 	case 9: // two flips in different blobs
-		if len(p.Entries) >= 2 {
-			i := h.Intn(len(p.Entries))
-			j := (i + 1 + h.Intn(len(p.Entries)-1)) % len(p.Entries)
+		if len(canon) >= 2 {
+			i := h.Intn(len(canon))
+			j := (i + 1 + h.Intn(len(canon)-1)) % len(canon)
 			for _, k := range []int{i, j} {
-				e := p.Entries[k]
+				e := canon[k]
 				if e.Len > 0 {
 					raw[int(e.Off)+h.Intn(int(e.Len))] ^= 0x10
 				}
@@ -448,21 +502,31 @@ func c34Case(h *H, base BeState) {
 			labels = append(labels, c34CraftSnapshot(h, repo, *sns[h.Intn(len(sns))].Tree))
 		}
 		repo = OpenRepoOn(be, "geheim")
+		a16Note(repo, be)
 		packs0 = a16Packs(repo, be)
 	}
 
+	keysNow := func() map[restic.ID]string {
+		r := OpenRepoOn(be, "geheim")
+		if err := r.LoadIndex(ctx, restic.NoopTerminalCounterFactory); err != nil {
+			panic(err)
+		}
+		return c34TreeKeys(r)
+	}
 	// now and then store a second copy of some blobs (exercises the LoadBlob fallback of streamPack)
 	if h.Intn(4) == 0 && len(packs0) > 0 {
 		if err := repo.LoadIndex(ctx, restic.NoopTerminalCounterFactory); err != nil {
 			panic(err)
 		}
+		dupKeys := keysNow()
 		err := repo.WithBlobUploader(ctx, func(ctx context.Context, up restic.BlobSaverWithAsync) error {
 			for k := 0; k < 3; k++ {
 				p := packs0[h.Intn(len(packs0))]
 				if len(p.Entries) == 0 {
 					continue
 				}
-				e := p.Entries[h.Intn(len(p.Entries))]
+				cn := c34Canon(p, dupKeys)
+				e := cn[h.Intn(len(cn))]
 				buf, err := repo.LoadBlob(ctx, e.blob().BlobHandle, nil)
 				if err != nil {
 					continue
@@ -478,9 +542,11 @@ func c34Case(h *H, base BeState) {
 		}
 		labels = append(labels, "duplicate-blobs")
 		repo = OpenRepoOn(be, "geheim")
+		a16Note(repo, be)
 		// only the original packs are candidates for damage (packs0 unchanged on purpose)
 	}
 
+	treeKeys := keysNow()
 	// damage 1..2 packs, name them (sometimes name a healthy one as well, sometimes forget one)
 	nv := 1 + h.Intn(2)
 	perm := h.Rng.Perm(len(packs0))
@@ -488,7 +554,7 @@ func c34Case(h *H, base BeState) {
 	damaged := map[restic.ID]bool{}
 	for k := 0; k < nv && k < len(perm); k++ {
 		p := packs0[perm[k]]
-		labels = append(labels, c34Corrupt(h, be, p))
+		labels = append(labels, c34Corrupt(h, be, p, c34Canon(p, treeKeys)))
 		damaged[p.ID] = true
 		if h.Intn(4) == 0 {
 			labels = append(labels, c34IndexDamage(h, repo, be, p.ID))
@@ -662,6 +728,26 @@ func c34Case(h *H, base BeState) {
 	h.Case("snapshots")
 	h.Rec("dmg", labels...)
 	h.Rec("allnamed", B(allNamed))
+	// handles the index lists although no listed copy can be read (possible only when a damaged
+	// pack was not named): `repair snapshots` cannot know, it works from the index
+	listed := map[c34Handle]bool{}
+	for _, ix := range idxAfter {
+		for _, p := range ix.Packs {
+			for _, e := range p.Entries {
+				listed[c34Handle{e.Typ, e.ID}] = true
+			}
+		}
+	}
+	var liars []c34Handle
+	for k := range listed {
+		if !availAfter[k] {
+			liars = append(liars, k)
+		}
+	}
+	sort.Slice(liars, func(i, j int) bool { return liars[i].ID.String() < liars[j].ID.String() })
+	for _, k := range liars {
+		h.Rec("liar", k.toks()...)
+	}
 	// index view of availability (what LookupBlobSize answers): first entry wins
 	seenH := map[c34Handle]bool{}
 	for _, ix := range idxAfter {
